@@ -394,6 +394,12 @@ func runSimple(w *harness.W, sess *vxh.Session, c scase, sample bool) {
 		}
 		w.Count("simple_draws", 1)
 		if len(items) == 0 {
+			// no item can be selected: the index rests at 0 (a negative
+			// index is what made Draw panic before)
+			if idx := l.Index(); idx != 0 {
+				fail("index-out-of-range", fmt.Sprintf("index %d with no items", idx), i)
+				return
+			}
 			continue
 		}
 		idx := l.Index()
